@@ -119,6 +119,8 @@ class World:
         self.status_flip = 0
         self.file_gate: list = []         # gated executor calls (os.remove / exists of an aborting download)
         self.hold_files = False
+        self.fs_hold = False
+        self.fs_queue: list = []          # executor jobs of the code under test waiting for fs_release
         self.harness_errors: list[str] = []
         self.peer_ticket = 700
         self.main_task = None
@@ -483,6 +485,18 @@ class World:
         await link.run(expect_init=True)
 
     def _executor_gate(self, func, args):
+        """Executor round trips (file system) take as long as the schedule says: while fs_hold is set every job the
+        code under test issues - except those of the user call in progress, which has its own switch - waits
+        until fs_release; independently the file removal of an abort can be held (hold_files)."""
+        try:
+            cur = asyncio.current_task(self.loop)
+        except RuntimeError:
+            cur = None
+        mine = cur is None or cur is self.main_task or cur.get_name().startswith(HARNESS_PREFIX)
+        if self.fs_hold and not mine:
+            fut = self.loop.create_future()
+            self.fs_queue.append((fut, func, args))
+            return fut
         if not self.hold_files:
             return None
         f = getattr(func, 'func', func)
@@ -491,6 +505,20 @@ class World:
             self.file_gate.append((fut, func, args))
             return fut
         return None
+
+    def release_fs(self):
+        self.fs_hold = False
+        n = 0
+        while self.fs_queue:
+            fut, func, args = self.fs_queue.pop(0)
+            if fut.done():
+                continue
+            n += 1
+            try:
+                fut.set_result(func(*args))
+            except BaseException as exc:  # noqa
+                fut.set_exception(exc)
+        return n
 
     def release_files(self):
         self.hold_files = False
@@ -534,6 +562,17 @@ class World:
             sess.send(M.GetUserStatus.Response(PEER, st, False))
         await self.pause_a_bit()
         self._record('stim', o='cycle')
+
+    async def cycle_hold(self):
+        """A management cycle during which executor round trips do not complete: whatever the cycle (or anything
+        else) asks of the file system stays pending until fs_release."""
+        self.fs_hold = True
+        await self.cycle()
+
+    async def fs_release(self):
+        n = self.release_fs()
+        await self.pause_a_bit()
+        self._record('stim', o='fs-release' if n else 'fs-release-none')
 
     def _gate_of(self, tk):
         for g in self.gates:
@@ -846,6 +885,7 @@ class World:
     async def window(self, mode):
         """Observation window: virtual minutes, covering the 10 s connect, 60 s indirect / file-connection,
         30 s reply and 180 s transfer timeouts."""
+        self.release_fs()
         self.release_files()
         if mode in ('ok', 'fail'):
             for g in list(self.gates):
@@ -929,6 +969,10 @@ def stimuli_of(labels):
         elif name == 'FileGone':
             out.append(['release', a[0]])
             open_call = None
+        elif name == 'CycleSelect':
+            out.append(['cycle_hold'])
+        elif name == 'CycleStart':
+            out.append(['fs_release'])
         elif name == 'Cycle':
             if open_call is not None and open_call >= 0 and out[open_call][3] is None:
                 # the call is (possibly) suspended in gather(): the request is placed inside it - right after the
@@ -1053,6 +1097,12 @@ PINNED = [
      'ok'),
     (('uq',), (('cycle',), ('direct', 1, 'init', 1, 'ok'), ('reply', 1, 1, 'allow'), ('direct', 1, 'init', 1, 'ok', 'fdirect'),
                ('offset', 1, 1, 'ok'), ('call', 1, 'abort', None, False)), 'timeout'),
+    # a user call lands while the management cycle waits for the file system between selecting and starting
+    (('uq',), (('cycle_hold',), ('call', 1, 'abort', None, False), ('fs_release',)), 'ok'),
+    (('uq',), (('cycle_hold',), ('call', 1, 'remove', None, False), ('fs_release',)), 'timeout'),
+    (('dq', 'uq'), (('cycle_hold',), ('call', 2, 'pause', None, False), ('call', 1, 'pause', None, False), ('fs_release',),
+                    ('requeue', 2)), 'ok'),
+    (('di',), (('cycle_hold',), ('call', 1, 'abort', None, True), ('fs_release',), ('release', 1)), 'timeout'),
     # peer frames landing inside a parked call / after its return
     (('di',), (('call', 1, 'abort', None, True), ('peer_queue_failed', 1), ('release', 1)), 'timeout'),
     (('di',), (('cycle',), ('call', 1, 'remove', None, True), ('peer_queue_failed', 1), ('peer_tells', 1, 'piq'),
@@ -1249,6 +1299,25 @@ def collect_schedules(chk: Check, thorough: bool):
     chk.cov['cover_paths'] = len(paths)
     chk.cov['cover_schedules'] = len(scheds) - n0
 
+    # exhaustive model of the cycle that waits between selecting and starting; its graph is checked (all
+    # properties) and covered in the same TLC run
+    g2, res2 = dump_graph_light('MC_split.cfg')
+    if not res2.ok:
+        raise MachineryFailure(f'MC_split.cfg: {[(i.kind, i.name) for i in res2.issues]}')
+    labels2 = {e[1].split('(')[0] for e in g2.edges}
+    if not {'CycleSelect', 'CycleStart', 'Call'} <= labels2:
+        raise MachineryFailure('vacuity: MC_split.cfg never takes CycleSelect / CycleStart')
+    chk.add_model('TransferTasks 1 transfer, cycle waits between select and start (exhaustive)', res2)
+    n2 = len(scheds)
+    for p in tlc.path_cover(g2):
+        labs = [e[1] for e in p]
+        if not any(x.startswith('CycleSelect') for x in labs):
+            continue
+        st = stimuli_of(labs)
+        if st:
+            scheds.setdefault((g2.states[p[0][0]], st, None), 'cover-split')
+    chk.log(f'graph MC_split.cfg: {res2.distinct_states} states, {len(g2.edges)} edges, {len(scheds) - n2} new schedules')
+
     for cfg, src in sims:
         behs, sres = simulate_light(cfg, num, 28, chk.seed + 11)
         if src == 'sim3' and any(i.kind in ('invariant', 'action_property') for i in sres.issues):
@@ -1274,6 +1343,7 @@ SWITCH_EXPECT = {
     'CycleSkipsLocked': 'QuietNoTasks',
     'OfferSkipsLocked': 'QuietNoTasks',
     'OfferSkipsOccupied': 'AtMostOneNegotiation',
+    'StartRechecks': 'QuietNoTasks',
 }
 
 
@@ -1329,13 +1399,22 @@ def run(chk: Check, args):
                   tlc.model_check(SPEC, 'MC_reoffer.cfg', expect_actions=['PeerOffer', 'FileConn'], timeout=1500))
     chk.add_model('TransferTasks 1 upload to the end incl. failure notification (exhaustive)',
                   tlc.model_check(SPEC, 'MC_up.cfg', expect_actions=['Notify', 'Xfer', 'PConnLost', 'PeerQueue'], timeout=1500))
-    for sw, prop in SWITCH_EXPECT.items():
-        rs = tlc.run_tlc(SPEC, f'MC_no_{sw}.cfg', workers=2, timeout=900)
-        hit = any(i.name == prop for i in rs.issues)
-        chk.cov['binding_selftest'][f'model_with_{sw}_FALSE_violates_{prop}'] = hit
-        if not hit:
-            raise MachineryFailure(f'design model with {sw}=FALSE did not violate {prop}')
-    chk.log('design model in the code\'s switch positions violates the expected properties (6 configs)')
+    # the design with the switches in the code's (pre-repair) positions must break the properties: all switches at
+    # once in the quick tier (one TLC start), one by one with the property each is expected to break in the thorough
+    # tier (these runs depend on the specification text only, not on the code under test)
+    rs = tlc.run_tlc(SPEC, 'MC_no_all.cfg', workers=2, timeout=900)
+    hit = any(i.kind in ('invariant', 'action_property') for i in rs.issues)
+    chk.cov['binding_selftest']['model_with_all_switches_FALSE_violates_a_property'] = hit
+    if not hit:
+        raise MachineryFailure('design model with every switch FALSE satisfies all properties')
+    if thorough:
+        for sw, prop in SWITCH_EXPECT.items():
+            rs = tlc.run_tlc(SPEC, f'MC_no_{sw}.cfg', workers=2, timeout=900)
+            hit = any(i.name == prop for i in rs.issues)
+            chk.cov['binding_selftest'][f'model_with_{sw}_FALSE_violates_{prop}'] = hit
+            if not hit:
+                raise MachineryFailure(f'design model with {sw}=FALSE did not violate {prop}')
+        chk.log('design model: each switch in the code\'s position violates its expected property (7 configs)')
     if thorough:
         r2 = tlc.model_check(SPEC, 'MC_t2.cfg', timeout=3000)
         chk.add_model('TransferTasks 2 transfers (exhaustive)', r2)
